@@ -1011,3 +1011,35 @@ def replay_findings(ctx):
         oracle(probe, "known", g, ops, hi, parsed[0])
         if probe.failures:
             ctx.known(f"{f['id']}: {f['what']}")
+
+
+def replay(data):
+    """./check replay <file>: re-run a recorded case (geom + ops) on the real host class and
+    the real firmware and evaluate the property relation on it"""
+    case = data.get("case") or {}
+    g, ops = case.get("geom"), case.get("ops")
+    if not g or not ops:
+        print("replay: the record carries no geom/ops to re-run")
+        return 0
+    g = list(g)
+    hi = C.run_impl("c17_impl.py", {"cases": [{"geom": g, "ops": ops}]})[0]
+    b = ScriptBuilder("setup")
+    b.add_lcd("replay", g, ops, [False] * len(ops))
+    parsed, prob = run_firmware([b])[0]
+    if prob:
+        print("replay: property FAILS on this case: no firmware - " + prob)
+        return 1
+    probe = C.Ctx("C17", "quick", 0)
+    probe.findings = []
+    oracle(probe, "replay", g, ops, hi, parsed[0])
+    if all(op[0] == "progress" for op in ops):
+        progress_scan(probe, "replay", g, ops, hi, parsed[0])
+    mats, _ = firmware_matrices(g, ops, parsed[0])
+    if hi["ctor"] == "ok" and hi["steps"]:
+        print("host buffer :", hi["steps"][-1]["buf"])
+    if mats:
+        print("device cells:", show(mats[-1]))
+    for f in probe.failures:
+        print("replay:", f["what"], "| expected:", f["expected"], "| observed:", f["observed"])
+    print("replay: property " + ("FAILS" if probe.failures else "holds") + " on this case")
+    return 1 if probe.failures else 0
